@@ -21,8 +21,12 @@ pub struct UnifyProp { pub id: &'static str, pub aspect: UAspect }
 
 const NAMES: [&str; 6] = ["$A", "$B", "$C", "$D", "$E", "$F"];
 
-fn fixed_ids() -> HashMap<String, usize> {
-    NAMES.iter().enumerate().map(|(i, n)| (n.to_string(), i + 1)).collect()
+/// The universe variables of a history: $A..$F, followed by any further names in order of appearance
+/// (the long-chain histories of C08 use $V1..$V64). Ids are positions + 1.
+fn hist_names(h: &[(Term, Term)]) -> Vec<String> {
+    let mut v: Vec<String> = NAMES.iter().map(|n| n.to_string()).collect();
+    for (a, b) in h { a.vars(&mut v); b.vars(&mut v); }
+    v
 }
 
 fn fmt_hist(h: &[(Term, Term)]) -> String {
@@ -63,9 +67,10 @@ impl UnifyProp {
         let id = self.id;
         let note = format!("{}{}", if renamed { "[after recreate_variables] " } else { "" }, if swap { "[sides swapped] " } else { "" });
         // engine terms
-        let ids = fixed_ids();
+        let names = hist_names(h);
+        let ids: HashMap<String, usize> = names.iter().enumerate().map(|(i, n)| (n.clone(), i + 1)).collect();
         let mut eterms: Vec<(U, U)> = h.iter().map(|(a, b)| (to_engine(a, &Ids::Map(&ids)), to_engine(b, &Ids::Map(&ids)))).collect();
-        let mut vars: Vec<(String, usize)> = NAMES.iter().enumerate().map(|(i, n)| (n.to_string(), i + 1)).collect();
+        let mut vars: Vec<(String, usize)> = names.iter().enumerate().map(|(i, n)| (n.clone(), i + 1)).collect();
         if renamed {
             suiron::clear_id();
             let mut vm = suiron::VarMap::new();
@@ -76,7 +81,7 @@ impl UnifyProp {
                 Ok(v) => eterms = v,
                 Err(f) => return Err(fail(id, "engine-failure", format!("recreate_variables: {:?}", f), h, 0, &note)),
             }
-            vars = NAMES.iter().filter_map(|n| vm.get(*n).map(|i| (n.to_string(), *i))).collect();
+            vars = names.iter().filter_map(|n| vm.get(n.as_str()).map(|i| (n.clone(), *i))).collect();
         }
         // reference terms: RT::Var(k) for the k-th universe variable present
         let mut s = Subst::new();
@@ -166,6 +171,7 @@ impl UnifyProp {
             UAspect::Acyclic => { cfg.vars = vec!["$A", "$B", "$C", "$D"]; cfg.anon = false; }
             UAspect::Anon => { }
         }
+        if self.aspect == UAspect::Acyclic && chance(s, 1, 8) { return self.gen_long_alias_history(s); }
         let n = 1 + s.draw(if self.aspect == UAspect::Acyclic { 8 } else { 5 }) as usize;
         let mut h = vec![];
         for _ in 0..n {
@@ -199,6 +205,33 @@ impl UnifyProp {
             let i = s.draw(h.len() as u32) as usize;
             if chance(s, 1, 2) { h[i].0 = inject(&h[i].0.clone(), s); } else { h[i].1 = inject(&h[i].1.clone(), s); }
         }
+        h
+    }
+
+    /// Alias chains far longer than the six-variable universe allows: 8-64 variables linked by runs of
+    /// `$Vi = $Vi+1` (forwards or backwards, either operand order), random cross links, a few bindings to
+    /// terms, and equations between the two ends of a run in either order (the steps that close a cycle
+    /// if an "already aliased?" walk gives up early).
+    fn gen_long_alias_history(&self, s: &mut dyn Src) -> Vec<(Term, Term)> {
+        let n = 8 + s.draw(57) as usize;
+        let v = |i: usize| Term::Var(format!("$V{}", i + 1));
+        let mut h = vec![];
+        let mut pos = 0usize;
+        while pos + 1 < n && h.len() < 90 {
+            let run = (2 + s.draw(48) as usize).min(n - pos);
+            let backwards = chance(s, 1, 3);
+            let flip = chance(s, 1, 3);
+            let idx: Vec<usize> = if backwards { (pos..pos + run - 1).rev().collect() } else { (pos..pos + run - 1).collect() };
+            for i in idx { h.push(if flip { (v(i + 1), v(i)) } else { (v(i), v(i + 1)) }); }
+            // the ends of the run, in one or both orders
+            match s.draw(4) { 0 => h.push((v(pos + run - 1), v(pos))), 1 => h.push((v(pos), v(pos + run - 1))), 2 => { h.push((v(pos + run - 1), v(pos))); h.push((v(pos), v(pos + run - 1))); } _ => {} }
+            if chance(s, 1, 4) { let a = s.draw(n as u32) as usize; let b = s.draw(n as u32) as usize; h.push((v(a), v(b))); }
+            if chance(s, 1, 6) { let a = s.draw(n as u32) as usize; h.push((v(a), if chance(s, 1, 2) { Term::atom("a") } else { Term::Cmp("f".into(), vec![v(s.draw(n as u32) as usize)]) })); }
+            pos += run - if chance(s, 1, 2) { 1 } else { 0 };
+        }
+        // finally relate the two ends of everything, both ways
+        h.push((v(n - 1), v(0)));
+        h.push((v(0), v(n - 1)));
         h
     }
 
@@ -256,7 +289,7 @@ impl UnifyProp {
                 // non-trivial: some step relates two variables that are already transitively aliased
                 let mut s = Subst::new();
                 let mut env = HashMap::new();
-                for n in NAMES { let v = s.fresh(); env.insert(n.to_string(), v); }
+                for n in hist_names(h) { let v = s.fresh(); env.insert(n, v); }
                 let mut hit = false;
                 for (a, b) in h.iter().take(base.steps.len()) {
                     let ra = instantiate(a, &mut env, &mut s);
@@ -267,6 +300,7 @@ impl UnifyProp {
                     let m = s.mark();
                     if !s.unify(&ra, &rb) { s.undo(m); }
                 }
+                if h.len() > 10 { rep.class("long-alias-chain-history"); }
                 if hit { rep.class("re-unifies-aliased-variables"); rep.nontrivial(fp); rep.sample(json!({"history": fmt_hist(h)})); }
                 // also the swapped order of every step
                 if let Err(r) = self.run_history(&h[..base.steps.len()], false, true, rep) { return r; }
@@ -336,7 +370,7 @@ const PRIORS: &[(&str, &str)] = &[
 impl Property for UnifyProp {
     fn id(&self) -> &'static str { self.id }
     fn max_len(&self) -> usize { 160 }
-    fn budget(&self) -> (u64, u64) { match self.aspect { UAspect::Symmetry => (30_000, 200_000), _ => (80_000, 500_000) } }
+    fn budget(&self) -> (u64, u64) { match self.aspect { UAspect::Symmetry => (30_000, 200_000), UAspect::Acyclic => (40_000, 400_000), _ => (80_000, 500_000) } }
 
     fn check(&self, src: &mut dyn Src, rep: &mut Report) -> CaseResult {
         let h = self.gen_history(src);
